@@ -222,8 +222,11 @@ def judge_events(res, per_history, name):
         if not r.ok or "JUDGED" not in r.out:
             res.machinery(f"AabbTreeTrace did not consume {p} ({n} events):\n" + r.out[-3000:])
             continue
-        for m in re.finditer(r'<<"REJECT", "([^"]+)", (\{[^}]*\})>>', r.out):
-            rejects[m.group(1)] = set(re.findall(r'"(\w+)"', m.group(2)))
+        try:
+            from ..trace import parse_rejects
+            rejects.update(parse_rejects(r.out))
+        except ValueError as e:
+            res.machinery(f"{e} for {p}")
         res.coverage["traces_validated_against_impl"] += n
         os.remove(p)
     return rejects
